@@ -152,6 +152,7 @@ pub fn e2e_scenario(c: &E2eCase) -> crate::e2e::Scenario {
         via_config,
         split: c.split,
         long_table: false,
+        cli_dup: false,
         // history kept for the default time, for 7 minutes, or not at all
         history_expire: [None, Some(7), Some(0), Some(1)][(c.split as usize + c.frames.len()) % 4],
         // the filters also decide what enters the stored history (/track): asked for the first frame's aircraft and
